@@ -59,9 +59,38 @@ pub fn sel_case(ctx: &mut Ctx, src: &str) {
     let ok = p.errors.is_empty();
     if ok && !is_one_selection_set(src) { ctx.fail("field-set-trailing-tokens-ignored", src, &format!("no error, tree {}", p.sexpr)); }
     if ok { ctx.nontrivial(src); }
+    // compiler wrapper: FieldSet::parse must not accept what is not exactly one selection set (whatever it does to the
+    // text before handing it to the parser)
+    thread_local! { static SCHEMA: apollo_compiler::validation::Valid<apollo_compiler::Schema> = apollo_compiler::Schema::parse_and_validate(
+        "directive @d on FIELD | INLINE_FRAGMENT  interface T { a: Query b(x: Int): Query c: Query }  type Query implements T { a: Query b(x: Int): Query c: Query }", "s.graphql").unwrap(); }
+    let c = crate::util::catch(|| SCHEMA.with(|sc| apollo_compiler::executable::FieldSet::parse(sc, apollo_compiler::name!("Query"), src, "f.graphql").is_ok()));
+    match c {
+        Ok(cok) => { if cok && !is_one_selection_set(src) { ctx.fail("field-set-trailing-tokens-ignored", &format!("FieldSet::parse({src:?})"), "Ok"); } if cok { ctx.stat("fieldset_compiler_ok"); } }
+        Err(m) => ctx.fail("parse-selection-set-panic", &format!("FieldSet::parse({src:?})"), &m),
+    }
 }
 
 pub fn run(ctx: &mut Ctx) {
+    // characters that are white space for Unicode (or look harmless) but are NOT ignored tokens of GraphQL, and the
+    // ignored ones for contrast — before, inside and after every construct, alone and mixed with ordinary white space
+    {
+        let odd = ["\u{a0}", "\u{b}", "\u{c}", "\u{85}", "\u{1680}", "\u{2000}", "\u{200a}", "\u{2028}", "\u{2029}", "\u{202f}", "\u{205f}", "\u{3000}", "\u{200b}", "\u{1}", "é", "\u{feff}", "\t", "\r", "\n", " ", ","];
+        let tconstructs = ["Int", "[Foo!]!", "[[b]]"];
+        let sconstructs = ["a", "{ a }", "a { b }", "a b { c }", "a: b(x: 1) @d"];
+        let mut n = 0u64;
+        for ch in odd {
+            for pad in [String::new(), "\n".to_string(), " ".to_string()] {
+                let x = format!("{pad}{ch}{pad}");
+                for c in tconstructs {
+                    for src in [format!("{c}{x}"), format!("{x}{c}"), format!("{c}{x}{x}"), c.replacen(|k: char| k == '!' || k == ']', &format!("{x}]"), 1)] { type_case(ctx, &src); n += 1; }
+                }
+                for c in sconstructs {
+                    for src in [format!("{c}{x}"), format!("{x}{c}"), format!("{c}{x}{x}"), c.replacen(' ', &format!(" {x} "), 1)] { sel_case(ctx, &src); n += 1; }
+                }
+            }
+        }
+        ctx.stat_n("odd_character_cases", n);
+    }
     for s in ["Int ]] x", "A B", "A", "[A!]!", " A", "A ", "", "!", "[A", "A!!", "A]"] { type_case(ctx, s); }
     for s in ["a } b", "a", "{ a }", "{ a } b", "a { b } }", "{ a } }", "a b { c }", ""] { sel_case(ctx, s); }
     let mut tys = vec![];
